@@ -9,6 +9,7 @@ pub mod alloc;
 pub mod flacfile;
 pub mod io;
 pub mod readers;
+pub mod writers;
 
 // ---------------------------------------------------------------------------------
 // deterministic PRNG (splitmix64) so that VERIF_SEED fully determines a run
